@@ -197,8 +197,9 @@ def run_job(task):
             res['exhausted'] = False
         import shutil
         shutil.rmtree(ctl.scratch, ignore_errors=True)
+    gap_only = bool(res['outcomes']) and all(GAP_MARK in k for k in res['outcomes'])     # every path ended at a stand-in gap: inconclusive, not vacuous
     for label in job.get('must_reach', ()):
-        if not any(k.startswith('ret:' + label) for k in res['outcomes']):
+        if not gap_only and not any(k.startswith('ret:' + label) for k in res['outcomes']):
             res['harness_errors'].append(f'vacuity: no path reached outcome "{label}" (outcomes: {list(res["outcomes"])[:8]})')
     res['wall'] = time.time() - t0
     return res
